@@ -65,6 +65,21 @@ static int run(const std::string &ob, const Args &a)
         for (unsigned r = 0; r < NR && !bad; r++) for (unsigned c = 0; c < NC; c++) if (!eq(*M.get(r, c), *D[r][c])) { std::cout << "REPRODUCED: from_coo then get(" << r << "," << c << ") = " << M.get(r, c)->__str__() << ", coordinate list sums to " << D[r][c]->__str__() << "\n"; bad = 1; }
         return bad;
     }
+    if (ob.find("csr_matmat") != std::string::npos) {
+        // two-pass product with the scipy calling protocol; B deliberately has more columns than A
+        unsigned NK2 = (unsigned)geti(a, "NK2", NC + 1);
+        std::vector<unsigned> pa, ja, pb, jb; vec_basic xa, xb;
+        if (!build(a, "A", NR, pa, ja, xa) || !build(a, "B", NC, pb, jb, xb)) { pa = {0, 1}; ja = {0}; xa = {integer(2)}; pb = {0, 1}; jb = {2}; xb = {integer(5)}; NR = 1; NC = 1; NK2 = 3; }
+        CSRMatrix A(NR, NC, pa, ja, xa), B(NC, NK2, pb, jb, xb); show(A, "A"); show(B, "B");
+        CSRMatrix C1(NR, NK2);
+        csr_matmat_pass1(A, B, C1);
+        std::vector<unsigned> pc, jc; vec_basic xc; std::tie(pc, jc, xc) = C1.as_vectors();
+        CSRMatrix C2(NR, NK2, pc, std::vector<unsigned>(pc.back(), 0), vec_basic(pc.back(), zero));
+        csr_matmat_pass2(A, B, C2); show(C2, "A*B");
+        Dense DA = dense_of(A), DB = dense_of(B), E(NR, std::vector<RCP<const Basic>>(NK2, zero));
+        for (unsigned i = 0; i < NR; i++) for (unsigned k = 0; k < NK2; k++) for (unsigned m = 0; m < NC; m++) E[i][k] = add(E[i][k], mul(DA[i][m], DB[m][k]));
+        return same(dense_of(C2), E, "csr_matmat_pass1/2") ? 0 : 1;
+    }
     if (ob.find("csr_binop") != std::string::npos) {
         std::vector<unsigned> pa, ja, pb, jb; vec_basic xa, xb;
         if (!build(a, "A", NR, pa, ja, xa) || !build(a, "B", NR, pb, jb, xb)) return 2;
